@@ -70,8 +70,7 @@ def _default_value_differs(old_value, new_value) -> bool:
     # Default values are compared the way clients see them (as GraphQL
     # literals): internal representations such as enum values or Python names
     # of input fields are not part of the schema's interface.
-    if old_value.default_value == new_value.default_value:
-        return False
+    # (Python equality is not enough either way: 1 == True == 1.0.)
     try:
         return print_ast(
             ast_node_from_value(old_value.default_value, old_value.type)
@@ -79,7 +78,7 @@ def _default_value_differs(old_value, new_value) -> bool:
             ast_node_from_value(new_value.default_value, new_value.type)
         )
     except Exception:
-        return True
+        return bool(old_value.default_value != new_value.default_value)
 
 
 TGraphQLType = TypeVar("TGraphQLType", bound=GraphQLType)
